@@ -13,8 +13,9 @@ const boundText = "fmt->builtin: the 10 functions of the table printFuncs (x/for
 	"lower-cased calls: 26 groups of stdlib functions/methods, 11 positions, conversions to package types, unsafe, 12 forms of user methods, all 25 Go keywords as method names + 6 library names, 12 kinds of name collisions (field/method/function/variable, builtin methods of string and []string); " +
 	"function literals: {0,1,2} params x {0,1,2} results x {one-line, single statement on own line, multi statement} x 9 rewritten destinations + 4 kept destinations, 30 special parameter lists/bodies/callees; " +
 	"shadowing of the qualifier fmt: 22 binding kinds + 5 controls x print functions x {statement, result used}, scope leaks through case/comm clauses, package-level variable, 9 import forms; " +
-	"shadowing of the target names echo/print/...: 10 names x 16 declaration kinds + 3 controls; 15 other uses of the import fmt (own files); file layouts; `$` in string literals; " +
-	"quick: 5 of the 10 print functions in the cross products (all 10 in the alias files), 4 of the 9 literal signatures, 2 of the 3 command-style callees"
+	"shadowing of the target names echo/print/...: 10 names x 16 declaration kinds + 3 controls; 15 other uses of the import fmt (own files); file layouts; " +
+	"excluded and counted (documented deviations of XGo from Go): `$` in string literals, field access next to a method of the capitalised name, and every name-collision unit whose UNCONVERTED Go text already behaves differently when it is compiled as XGo; " +
+	"quick: 5 of the 10 print functions in the cross products (all 10 in the alias files), 4 of the 9 literal signatures, 2 of the 3 command-style callees, 3 of 6 alias names, 8 of 15 other uses of the import, 21 of 26 library groups"
 
 // printFns is a copy of the table printFuncs in /repo/x/format/format.go (it is not exported).
 var printFns = []string{"Errorf", "Print", "Printf", "Println", "Fprint", "Fprintf", "Fprintln", "Sprint", "Sprintf", "Sprintln"}
@@ -84,9 +85,16 @@ func generate(thorough bool) []Unit {
 	g.shadowQualifier()
 	g.shadowTargets()
 	g.importForms()
-	g.dollarStrings()
 	g.unchangedGo()
-	g.fieldVsMethod()
+	// XGo's documented deviations from Go are outside the supported subset (same rule as C01): the units
+	// are enumerated, counted and not run
+	n := len(g.units)
+	g.dollarStrings() // "${...}" / "$$" inside a string literal is interpolation in XGo
+	g.excluded("documented_deviation:dollar-in-string-literal", len(g.units)-n)
+	g.units = g.units[:n]
+	g.fieldVsMethod() // a lower-case member name is also looked up capitalised (p.name finds method Name)
+	g.excluded("documented_deviation:auto-capitalised-member-lookup", len(g.units)-n)
+	g.units = g.units[:n]
 	return g.units
 }
 
@@ -345,6 +353,9 @@ func (g *gen) commandStyle() {
 			x[1] += "\n_ = plain@@"
 		}
 		d := ""
+		if strings.Contains(x[1], "mk@@") || strings.Contains(x[1], ".Run()") || strings.Contains(x[1], ".run2()") {
+			x[1] += "\n_ = na@@{}"
+		}
 		for _, pc := range naPieces {
 			if strings.Contains(x[1], pc[0]) {
 				d += pc[1] + "\n\n"
@@ -414,6 +425,9 @@ func (g *gen) lowerCalls() {
 		{"slices.Sort", imp("fmt", "slices"), "xs := []int{3, 1, 2}\nslices.Sort(xs)\nfmt.Println(xs, slices.Contains(xs, 2), slices.Index(xs, 3), slices.Max(xs))"},
 		{"os.Stdout.WriteString", imp("os"), "os.Stdout.WriteString(\"direct\\n\")\nos.Stdout.Write([]byte(\"bytes\\n\"))"},
 	} {
+		if !g.thorough && strings.Contains("rand.New json.Marshal filepath.Join regexp.MustCompile unicode.IsUpper", x.name) {
+			continue // quick: fewer library packages to load (bytes stays: Fprint units use it)
+		}
 		g.add(k, x.name, "plain", x.imps, "", x.body)
 	}
 	// positions of a package function / method
@@ -663,7 +677,9 @@ func (g *gen) funcLits() {
 	g.add(k("library-callee"), "sort.SliceStable multi-statement", "plain", imp("fmt", "sort"), "", "xs := []string{\"bb\", \"a\", \"cc\"}\nsort.SliceStable(xs, func(i, j int) bool {\n\ta, b := len(xs[i]), len(xs[j])\n\treturn a < b\n})\nfmt.Println(xs)")
 	g.add(k("library-callee"), "strings.IndexFunc/TrimFunc/FieldsFunc", "plain", imp("fmt", "strings"), "", "fmt.Println(strings.IndexFunc(\"ab1\", func(r rune) bool { return r == '1' }), strings.TrimFunc(\"xxaxx\", func(r rune) bool { return r == 'x' }), strings.FieldsFunc(\"a;b\", func(r rune) bool { return r == ';' }))")
 	g.add(k("library-callee"), "sync.Once.Do", "plain", imp("fmt", "sync"), "", "var once sync.Once\nfor i := 0; i < 2; i++ {\n\tonce.Do(func() { fmt.Println(\"once\", i) })\n}")
-	g.add(k("library-callee"), "regexp.ReplaceAllStringFunc", "plain", imp("fmt", "regexp", "strings"), "", "re := regexp.MustCompile(`[a-z]+`)\nfmt.Println(re.ReplaceAllStringFunc(\"ab-cd\", func(s string) string { return strings.ToUpper(s) }))")
+	if g.thorough {
+		g.add(k("library-callee"), "regexp.ReplaceAllStringFunc", "plain", imp("fmt", "regexp", "strings"), "", "re := regexp.MustCompile(`[a-z]+`)\nfmt.Println(re.ReplaceAllStringFunc(\"ab-cd\", func(s string) string { return strings.ToUpper(s) }))")
+	}
 	g.add(k("library-callee"), "slices.SortFunc/IndexFunc (generic)", "plain", imp("fmt", "slices"), "", "xs := []int{3, 1, 2}\nslices.SortFunc(xs, func(a, b int) int { return b - a })\nfmt.Println(xs, slices.IndexFunc(xs, func(a int) bool { return a == 1 }))")
 	g.add(k("callee-is-func-literal"), "func(f func() int){...}(func() int {...})", "plain", imp("fmt"), "", "func(f func() int) { fmt.Println(f()) }(func() int { return 8 })")
 	g.add(k("deferred-call-argument"), "defer run(func() {...})", "plain", imp("fmt"), "func run@@(f func()) { f() }", "defer run@@(func() { fmt.Println(\"deferred\") })\nfmt.Println(\"body\")")
@@ -802,7 +818,11 @@ func (g *gen) shadowQualifier() {
 	g.add(ka, "short declaration", "plain", im, prType("pr@@"), "fmt := pr@@{}\nf9.Println(\"plain\", 2)\n_ = fmt")
 	// scope leaks of the converter: a declaration in one case clause must not hide the package in the next
 	// (own files: whether the import survives depends on the rest of the file)
-	for _, fn := range g.fns() {
+	leakFns := g.fns()
+	if !g.thorough {
+		leakFns = leakFns[:2]
+	}
+	for _, fn := range leakFns {
 		r := strings.NewReplacer("CALLPKG", indent(indent(pkgStmt(fn))), "CALL", shadowCall("fmt", fn), "PR", "pr@@")
 		g.add("fmt-to-builtin/qualifier-declared-in-previous-case-clause", fn, "solo:"+fn+"-switch", im, prType("pr@@"),
 			r.Replace("for i := 0; i < 2; i++ {\n\tswitch i {\n\tcase 0:\n\t\tvar fmt PR\n\t\tCALL\n\tcase 1:\nCALLPKG\n\t}\n}"))
@@ -819,7 +839,11 @@ func (g *gen) shadowQualifier() {
 	// import aliases
 	envs["alias-log"] = envT{osMarker: true, imports: imp(`fmt "log"`), prelude: "func init() {\n\tfmt.SetFlags(0)\n\tfmt.SetOutput(os.Stdout)\n}"}
 	g.add("fmt-to-builtin/qualifier-is-alias-of-another-package", "import fmt \"log\"", "alias-log", imp("os"), "", "fmt.Println(\"via log\", 1)\nfmt.Printf(\"%d via log\\n\", 2)\nfmt.Print(\"p via log\\n\")")
-	for _, al := range []string{"f", "strings", "echo", "println", "os2", "fmt2"} {
+	aliases := []string{"f", "strings", "echo", "println", "os2", "fmt2"}
+	if !g.thorough {
+		aliases = aliases[:3]
+	}
+	for _, al := range aliases {
 		envs["alias-"+al] = envT{osMarker: true, imports: imp(al + ` "fmt"`)}
 		body := ""
 		for _, fn := range printFns {
@@ -939,6 +963,9 @@ func (g *gen) importForms() {
 		{"channel-and-func-types", st, "ch := make(chan fmt.Stringer, 1)\nch <- sg@@{}\nf := func(s fmt.Stringer) fmt.Stringer { return s }\nfmt.Println(f(<-ch))"},
 		{"not-rewritten-function", "", "var a int\nfmt.Sscan(\"4\", &a)\nfmt.Println(a)"},
 	} {
+		if !g.thorough && i%2 == 1 && c.name != "not-rewritten-function" {
+			continue
+		}
 		g.add("import-of-fmt/other-use:"+c.name, "own file", fmt.Sprintf("solo:fmtuse%d", i), im, c.decls, c.body)
 	}
 }
